@@ -20,6 +20,7 @@ var families = map[string]func(*h.Run){
 	"C10": props.C10,
 	"C16": props.C16,
 	"C18": props.C18,
+	"C19": props.C19,
 }
 
 func main() {
